@@ -193,6 +193,16 @@ pub fn dig<T: std::hash::Hash>(t: &T) -> u64 {
     h.finish() | 1
 }
 
+/// A refused step left a different digest: decide whether the refused call itself changed storage
+/// (re-executed without oracles on a fresh rebuild) or whether only the world's read-only
+/// observation calls did (getters may extend the lifetime of temporary entries).
+fn refusal_changed_storage<W: World + ?Sized>(w: &W, node_seed: usize, hist: &[W::Op], op: &W::Op) -> bool {
+    let mut j = rebuild(w, node_seed, hist);
+    let k0 = w.key(&j);
+    w.apply(&mut j, op);
+    w.key(&j) != k0
+}
+
 fn fmt_hist<O: Debug>(h: &[O]) -> Vec<String> {
     h.iter().map(|o| format!("{o:?}")).collect()
 }
@@ -221,7 +231,7 @@ fn expand_wide<W: World + ?Sized>(w: &W, node: &Node<W>, depth: usize) -> NodeOu
                     out.stats.op(&kind, ok);
                     let key = w.key(&inst);
                     if !ok && w.atomic_on_refusal(op) {
-                        if key != pre_key {
+                        if key != pre_key && refusal_changed_storage(w, node.seed, &node.hist, op) {
                             out.violations.push((op.clone(), Violation::new("failure-atomicity", "a refused call changed contract storage".into())));
                         }
                     } else if !w.leaf_only(op) {
@@ -250,11 +260,18 @@ fn expand<W: World + ?Sized>(w: &W, node: &Node<W>, depth: usize) -> NodeOut<W> 
     let pre_key = w.key(&inst);
     let ops = w.ops(&inst, &node.model, depth);
     let mut dirty = false;
+    let mut reused = false;
     for op in ops {
         if dirty {
             inst = rebuild(w, node.seed, &node.hist);
             dirty = false;
+            reused = false;
         }
+        // a reused instance may have been touched by read-only observation calls of an earlier
+        // refused step (getters may extend the lifetime of temporary entries): compare a refused
+        // call with the digest taken immediately before it
+        let pre_key = if reused { w.key(&inst) } else { pre_key };
+        reused = true;
         let mut m = node.model.clone();
         let kind = w.kind(&op);
         let res = {
@@ -272,10 +289,12 @@ fn expand<W: World + ?Sized>(w: &W, node: &Node<W>, depth: usize) -> NodeOut<W> 
                 let key = w.key(&inst);
                 if !ok && w.atomic_on_refusal(&op) {
                     if key != pre_key {
-                        out.violations.push((
-                            op,
-                            Violation::new("failure-atomicity", "a refused call changed contract storage".into()),
-                        ));
+                        if refusal_changed_storage(w, node.seed, &node.hist, &op) {
+                            out.violations.push((
+                                op,
+                                Violation::new("failure-atomicity", "a refused call changed contract storage".into()),
+                            ));
+                        }
                         dirty = true;
                         continue;
                     }
@@ -512,7 +531,7 @@ pub fn replay<W: World + ?Sized>(w: &W, seed: usize, history: &[String]) -> Resu
                 return Ok(());
             }
             Ok(ok) => {
-                if !ok && w.atomic_on_refusal(&op) && w.key(&inst) != pre {
+                if !ok && w.atomic_on_refusal(&op) && w.key(&inst) != pre && refusal_changed_storage(w, seed, &hist, &op) {
                     println!("step {i}: {want}\n  VIOLATED oracle=failure-atomicity : a refused call changed contract storage");
                     return Ok(());
                 }
